@@ -30,9 +30,12 @@ impl NotificationHandler<DidOpenTextDocument> for DidOpenTextDocumentHandler {
 
 impl NotificationHandler<DidChangeTextDocument> for DidChangeTextDocumentHandler {
     fn handle(&self, ctx: &mut LspContext, params: DidChangeTextDocumentParams) -> MosResult<()> {
-        let text_changes = params.content_changes.first().unwrap();
-        register_document(ctx, &params.text_document.uri, &text_changes.text);
-        publish_diagnostics(ctx)?;
+        // With full document sync every change holds the whole text: the last one is the current content.
+        // A notification without changes changes nothing.
+        if let Some(text_changes) = params.content_changes.last() {
+            register_document(ctx, &params.text_document.uri, &text_changes.text);
+            publish_diagnostics(ctx)?;
+        }
         Ok(())
     }
 }
